@@ -29,6 +29,9 @@ CONSTANTS D,                   \* depth limit (MAX_TRAVERSAL_DEPTH, scaled down 
 \* so all colrglyph nodes naming one base glyph are one paint.
 NodeKey(G, n) == IF G[n].kind = "colrglyph" THEN <<"cg", G[n].kids[1]>> ELSE <<"n", n>>
 
+\* a node record may carry clip |-> TRUE: the base glyph whose root paint it is has a ClipList entry
+HasClip(G, n) == "clip" \in DOMAIN G[n] /\ G[n].clip
+
 \* ---- decycler ------------------------------------------------------------
 NewDec == [ids |-> <<>>, depth |-> 0]
 Enter(dec, id) ==
@@ -95,6 +98,12 @@ Trav(G, n, depth, dec, P, out, v, cached, plain) ==
          LET en == Enter(dec, NodeKey(G, kids[1])) IN
          IF en.err # "none" THEN Res(en.err, P, out, v1)
          ELSE IF cached /\ P = <<>> THEN Res("ok", P, Append(out, "cached_glyph"), v1)
+         ELSE IF HasClip(G, kids[1])
+         THEN \* the base glyph has a clip box: push_clip_box, traverse, pop_clip (also when the traversal fails)
+              LET e1 == Emit(P, out, "push_clip")
+                  r  == Trav(G, kids[1], depth + 1, en.dec, e1.P, e1.out, v1, cached, plain)
+                  e2 == Emit(r.P, r.out, "pop_clip")
+              IN Res(r.res, e2.P, e2.out, r.visits)
          ELSE Trav(G, kids[1], depth + 1, en.dec, P, out, v1, cached, plain)
 
 TravLayers(G, kids, i, depth, dec, P, out, v, cached, plain) ==
@@ -107,7 +116,9 @@ TravLayers(G, kids, i, depth, dec, P, out, v, cached, plain) ==
 
 \* ColorGlyph::paint for the base glyph whose root paint is node r
 Paint(G, r, cached) ==
-  LET en == Enter(NewDec, NodeKey(G, r)) IN Trav(G, r, 0, en.dec, <<>>, <<>>, 0, cached, FALSE)
+  LET en == Enter(NewDec, NodeKey(G, r))
+      t  == Trav(G, r, 0, en.dec, <<>>, IF HasClip(G, r) THEN <<"push_clip">> ELSE <<>>, 0, cached, FALSE)
+  IN IF HasClip(G, r) /\ t.res = "ok" THEN [t EXCEPT !.out = Append(@, "pop_clip")] ELSE t
 \* the plain single-pass traversal of the same graph (every PaintGlyph clips and descends once):
 \* its visit count is the size of the guarded unfolding of the graph
 Plain(G, r, cached) ==
